@@ -113,7 +113,7 @@ def build(tier, seed):
     # primitives and sequence implementations (hand-written driver)
     if '-I' + os.path.join(VERIF, 'drivers') not in ipv.CLANG_ARGS:
         ipv.CLANG_ARGS.append('-I' + os.path.join(VERIF, 'drivers'))
-    PR = ['capture_name', 'fundecl_definition_form', 'check', 'ref', 'optional', 'ref_sequence', 'obj_list', 'obj_sequence', 'empty_sequence', 'singleton_ref', 'singleton_obj', 'typed_sequence']
+    PR = ['capture_name', 'fundecl_definition_form', 'secondary_template_after_var', 'obj_list_interleaved', 'check', 'ref', 'optional', 'ref_sequence', 'obj_list', 'obj_sequence', 'empty_sequence', 'singleton_ref', 'singleton_obj', 'typed_sequence']
     pn = {'p_' + k: 'drv::p_' + k for k in PR}
     pu = Unit('primitives', 'drivers/access.cxx', roots=sorted(pn.values()), names=pn)
     def mkpgen(k):
@@ -122,7 +122,12 @@ def build(tier, seed):
             ret, cname, cps = F.cparams(fn['sig'])
             t = F.PRELUDE_C + F.ext_models(unit) + 'void h_p_%s(void)\n{\n' % k
             args = []
+            pooled = F.pooled_type_and_forall(cps)
+            if pooled:
+                t += pooled[0]
             for i, (ct, pn_) in enumerate(cps):
+                if pooled and pn_ in pooled[1]:
+                    args.append(pn_); continue
                 if ct.endswith('*') and ct.startswith('struct ') and pn_ in ('v_p', 'v_q'):
                     t += '  %s %s = nondet_bool() ? NEWZ(%s) : 0;      /* present or absent */\n' % (ct, pn_, ct[:-1].strip())
                 else:
@@ -135,7 +140,7 @@ def build(tier, seed):
     for k in PR:
         o = Ob('C14.prim.' + k, pu, None, 'h_p_' + k, k.replace('_', ' ') + ': null / empty / out-of-range refused with a logic error, otherwise exactly the datum; symbolic index against size()', kind='K1', replay='C14', timeout=600, flags=['--unwind', '12'], objbits=12)
         o.gen = mkpgen(k); obs.append(o)
-        if k in ('empty_sequence', 'capture_name', 'fundecl_definition_form'):
+        if k in ('empty_sequence', 'capture_name', 'fundecl_definition_form', 'secondary_template_after_var'):
             o.no_canary = True      # every index is out of range: the call never returns normally, which is the property; reaching it is witnessed by the EXC assertion inside __ipr_throw
     meta = dict(sweep_family='C14', functions_under_contract=sorted(set(f['cls'] + '::' + f['name'] for f, _, _ in items)) + sorted(pn.values()), factories=len(facs), factories_covered=len(obs) - len(PR),
                 accessor_calls_covered=nacc, not_covered=uncovered, driver_chunks=len(chunks),
